@@ -20,11 +20,24 @@ same code moved into a private helper (any number of `return`s) all produce the 
     class / module are lifted to temporaries and executed (callee paths multiply the caller's);
   * anything else (loops, `with`, `try`, `assert`, unknown expression statements, starred targets)
     raises AnalysisError: the caller fails closed.
+
+Two kinds of statements executed for their effect are read (everything else of that kind still fails closed):
+
+  * an in-place change of a *watched* parameter (`SymExec.watch`: the containers the caller hands over by
+    reference) or of something reached through it — a mutating method call, `p &= …`, `p[k] = …`, `del p[k]` —
+    is recorded in `SymExec.arg_mutations` and execution goes on (the caller's rule reports it);
+  * `xs.append(e)` / `xs.add(e)` inside the summarised loop on a local that is an empty list / set at the loop's
+    entry: the local becomes loop-carried (a chain of `push` atoms per path), and `sum(f(x) for x in xs)` /
+    `sum(xs)` after the loop is the *derived accumulator* `Σxs[f($)]` whose per-path increment is f applied to
+    the elements the path pushed (`SymExec.derive_sums`), so `acc += e` and "collect, then sum" have the same
+    leaves.  A collection that forgets multiplicity (a set, `set(xs)`) whose elements do not carry the loop item
+    is recorded in `SymExec.collapsing`.
 """
 from __future__ import annotations
 
 import ast
 import copy
+import dataclasses
 from dataclasses import dataclass
 from typing import Any, Callable
 
@@ -104,7 +117,25 @@ class LoopRecord:
     iter_term: str
     assigned: list[str]
     leaves: list[Leaf]
+    colls: dict[str, str] = dataclasses.field(default_factory=dict)  # local filled by append / add in the loop -> "list" | "set"
 
+
+@dataclass
+class SumSpec:
+    """`sum(ELT for TARGET in COLL)` (ELT / TARGET None: `sum(COLL)`) met after the loop that fills COLL."""
+    coll: str
+    target: ast.AST | None
+    elt: ast.AST | None
+    env: Env
+    dedupe: str | None  # the wrapper that forgets multiplicity on the way into the sum (`set(xs)`), if any
+    node: ast.AST
+
+
+COLLECT = {"append": "list", "add": "set"}
+# methods that change a set / dict / list in place
+INPLACE = ("pop", "popitem", "clear", "update", "setdefault", "__setitem__", "__delitem__", "add", "discard", "remove",
+           "append", "extend", "insert", "sort", "reverse", "intersection_update", "difference_update",
+           "symmetric_difference_update", "__iand__", "__ior__", "__isub__", "__ixor__")
 
 SEQ_WRAPPERS = ("sorted", "list", "tuple", "set", "frozenset")
 
@@ -128,6 +159,12 @@ class SymExec:
         self._tmp = 0
         self._n_leaves = 0
         self.used: set[str] = set()  # quals of the helpers that were executed / fused
+        self.watch: tuple[str, ...] = ()  # parameters of the analysed function that are the caller's own containers
+        self.arg_mutations: list[tuple[str, str, ast.AST, tuple[Fact, ...]]] = []  # (parameter, statement, node, facts)
+        self.sums: dict[str, SumSpec] = {}  # derived accumulator -> the sum over a collected local it stands for
+        self.collapsing: list[tuple[str, str, ast.AST]] = []  # (collection, why multiplicity is lost, node)
+        self._colls: dict[str, str] = {}
+        self._coll_fn: FuncInfo | None = None
 
     # ------------------------------------------------------------------ values
     def mk(self, name: str, parts: tuple[Any, ...]) -> Poly:
@@ -168,7 +205,11 @@ class SymExec:
         if isinstance(e, ast.Subscript):
             if isinstance(e.slice, ast.Slice) or any(isinstance(x, ast.Slice) for x in ast.walk(e.slice)):
                 return Poly.atom(te.text(e))
-            return Poly.atom(f"{self._name_of(te.ev(e.value))}[{te.ev(e.slice)!r}]")
+            base = te.ev(e.value)
+            st, idx = self.parts(base, "tuple"), te.ev(e.slice).const_value()
+            if st is not None and idx is not None and idx.denominator == 1 and -len(st[1]) <= idx < len(st[1]):
+                return st[1][int(idx)]  # (a, b)[0] is a
+            return Poly.atom(f"{self._name_of(base)}[{te.ev(e.slice)!r}]")
         if isinstance(e, ast.Call):
             return self._call(e, te)
         if isinstance(e, ast.Tuple) and not any(isinstance(x, ast.Starred) for x in e.elts):
@@ -181,6 +222,10 @@ class SymExec:
     def _call(self, e: ast.Call, te: TermEval) -> Poly:
         if any(isinstance(a, ast.Starred) for a in e.args) or any(k.arg is None for k in e.keywords):
             return Poly.atom(te.text(e))
+        if u(e.func) in ("sum", "math.fsum", "fsum") and len(e.args) == 1 and not e.keywords and not self._in_loop:
+            got = self._collected_sum(e.args[0], te, e)
+            if got is not None:
+                return got
         args = [te.ev(a) for a in e.args]
         kws = {k.arg: te.ev(k.value) for k in e.keywords if k.arg is not None}
         f = e.func
@@ -207,6 +252,127 @@ class SymExec:
             args = sorted(args, key=repr)  # symmetric in its two operands
         text = ", ".join([repr(a) for a in args] + [f"{k}={v!r}" for k, v in sorted(kws.items())])
         return self.mk(f"{fname}({text})", ("call", fname, tuple(args), kws))
+
+    # ------------------------------------------------------------------ collected contributions
+    def _empty_coll(self, p: Poly | None) -> str | None:
+        """"list" / "set" when `p` is a freshly built empty list / set."""
+        if p is None:
+            return None
+        if p.as_atom() == "[]":
+            return "list"
+        st = self.parts(p, "call")
+        if st is not None and st[1] in ("list", "set") and not st[2] and not st[3]:
+            return str(st[1])
+        return None
+
+    def _coll_of(self, it: ast.AST, te: TermEval) -> tuple[str, str | None] | None:
+        """(collected local, deduplicating wrapper or None) when `it` iterates what a summarised loop collected."""
+        dedupe: str | None = None
+        while isinstance(it, ast.Call) and len(it.args) == 1 and not it.keywords and (
+                u(it.func) in SEQ_WRAPPERS or u(it.func) == "dict.fromkeys"):
+            if u(it.func) in ("set", "frozenset", "dict.fromkeys"):
+                dedupe = u(it.func)
+            it = it.args[0]
+        if not isinstance(it, (ast.Name, ast.Attribute, ast.Subscript)):
+            return None
+        a = te.ev(it).as_atom()
+        if a is not None and a.endswith("@loop") and any(a[:-len("@loop")] in r.colls for r in self.loops):
+            return a[:-len("@loop")], dedupe
+        return None
+
+    def _bind_target(self, target: ast.AST, value: Poly, env: Env) -> Env:
+        env2 = dict(env)
+        if isinstance(target, ast.Name):
+            env2[target.id] = value
+            return env2
+        st = self.parts(value, "tuple")
+        if isinstance(target, (ast.Tuple, ast.List)) and all(isinstance(x, ast.Name) for x in target.elts) \
+                and st is not None and len(st[1]) == len(target.elts):
+            for x, xv in zip(target.elts, st[1]):
+                env2[x.id] = xv  # type: ignore[attr-defined]
+            return env2
+        raise AnalysisError(f"{self.fn_stack[-1].qual}: a collected element `{value!r}` does not unpack into `{u(target)}`")
+
+    def _collected_sum(self, arg: ast.AST, te: TermEval, call: ast.Call) -> Poly | None:
+        target = elt = None
+        if isinstance(arg, (ast.GeneratorExp, ast.ListComp)):
+            if len(arg.generators) != 1:
+                return None
+            g = arg.generators[0]
+            found = self._coll_of(g.iter, te)
+            if found is None:
+                return None
+            if g.ifs or g.is_async:
+                raise AnalysisError(f"{self.fn_stack[-1].qual}: filtered sum over collected contributions `{u(call)[:80]}`")
+            target, elt = g.target, arg.elt
+        else:
+            found = self._coll_of(arg, te)
+            if found is None:
+                return None
+        coll, dedupe = found
+        shape = "$"
+        if target is not None and elt is not None:
+            if isinstance(target, ast.Name):
+                ph = Poly.atom("$")
+            elif isinstance(target, (ast.Tuple, ast.List)):
+                elts = [Poly.atom(f"${i}") for i in range(len(target.elts))]
+                ph = self.mk(f"({', '.join(repr(x) for x in elts)},)", ("tuple", elts))
+            else:
+                raise AnalysisError(f"{self.fn_stack[-1].qual}: unsupported target in `{u(call)[:80]}`")
+            shape = repr(self.ev(elt, self._bind_target(target, ph, te.env)))
+        key = f"Σ{coll}[{shape}]" if dedupe is None else f"Σ{dedupe}({coll})[{shape}]"
+        self.sums.setdefault(key, SumSpec(coll, target, elt, dict(te.env), dedupe, call))
+        return Poly.atom(f"{key}@loop")
+
+    def pushes(self, p: Poly, coll: str) -> list[tuple[Poly, ast.AST]]:
+        """The elements (with the statement that adds each) one path of an iteration appends to `coll`."""
+        out: list[tuple[Poly, ast.AST]] = []
+        while p != Poly.atom(f"{coll}@0"):
+            st = self.parts(p, "push")
+            if st is None:
+                raise AnalysisError(f"{self.fn_stack[0].qual}: `{coll}` is filled and rebound in the loop")
+            out.append((st[2], st[3]))
+            p = st[1]
+        return out[::-1]
+
+    def derive_sums(self, rec: LoopRecord) -> None:
+        """Make every `sum(… over a local the loop of `rec` collected)` met so far a loop-carried variable of
+        `rec`: 0 at the loop's entry, and on each path of an iteration old value + the summand of each pushed
+        element.  Collections that lose multiplicity are noted in `self.collapsing`."""
+        for key, spec in self.sums.items():
+            if spec.coll not in rec.colls or key in rec.assigned:
+                continue
+            for x in rec.leaves:
+                total = Poly.atom(f"{key}@0")
+                for elem, node in self.pushes(x.env[spec.coll], spec.coll):
+                    if spec.target is None or spec.elt is None:
+                        total = total + elem
+                    else:
+                        total = total + self.ev(spec.elt, self._bind_target(spec.target, elem, spec.env))
+                    st = self.parts(elem, "tuple")
+                    keyed = elem == Poly.atom(self.item_atom) or (
+                        st is not None and any(c == Poly.atom(self.item_atom) for c in st[1]))
+                    if rec.colls[spec.coll] == "set":
+                        why, at = f"`{' '.join(u(node).split())[:80]}` fills a set", node
+                    elif spec.dedupe:
+                        why, at = f"`{' '.join(u(spec.node).split())[:80]}` sums `{spec.dedupe}(…)` of what was collected", spec.node
+                    else:
+                        continue
+                    if not keyed and (spec.coll, why) not in [(c_, w_) for c_, w_, _n in self.collapsing]:
+                        self.collapsing.append((spec.coll, why, at))
+                x.env[key] = total
+            rec.assigned.append(key)
+            rec.pre_env[key] = Poly.const(0)
+
+    def _rooted(self, p: Poly) -> str | None:
+        """The watched parameter `p` is, or is reached through (`param[k]`, `param.attr`)."""
+        a = p.as_atom()
+        if a is None:
+            return None
+        return next((w for w in self.watch if a == w or a.startswith((w + "[", w + "."))), None)
+
+    def _mutated(self, param: str, s: ast.AST, facts: tuple[Fact, ...]) -> None:
+        self.arg_mutations.append((param, " ".join(u(s).split())[:100], s, facts))
 
     # ------------------------------------------------------------------ conditions
     def cond(self, e: ast.AST, env: Env) -> Fact:
@@ -525,6 +691,10 @@ class SymExec:
                     for x, xv in zip(t.elts, st[1]):
                         env2[x.id] = xv  # type: ignore[attr-defined]
                     continue
+                param = self._rooted(self.ev(t.value, env)) if isinstance(t, (ast.Subscript, ast.Attribute)) else None
+                if param is not None:
+                    self._mutated(param, s, f2)
+                    continue
                 raise AnalysisError(f"{self.fn_stack[-1].qual}: unsupported assignment `{u(s)[:80]}`")
             nxt(env2, f2)
 
@@ -590,6 +760,14 @@ class SymExec:
                            if isinstance(n, ast.Name) and isinstance(n.ctx, (ast.Store, ast.Del))})
         if loop.target.id in assigned:
             raise AnalysisError(f"{fn.qual}: loop variable rebound in the loop")
+        colls: dict[str, str] = {}
+        for b in loop.body:
+            for n in ast.walk(b):
+                if isinstance(n, ast.Expr) and isinstance(n.value, ast.Call) and isinstance(n.value.func, ast.Attribute) \
+                        and isinstance(n.value.func.value, ast.Name) and n.value.func.attr in COLLECT \
+                        and self._empty_coll(env.get(n.value.func.value.id)) == COLLECT[n.value.func.attr]:
+                    colls[n.value.func.value.id] = COLLECT[n.value.func.attr]
+        assigned = sorted(set(assigned) | set(colls))
         it: ast.AST = loop.iter
         while isinstance(it, ast.Call) and u(it.func) in SEQ_WRAPPERS and len(it.args) == 1 and not it.keywords:
             it = it.args[0]
@@ -599,14 +777,14 @@ class SymExec:
             env0[v] = Poly.atom(f"{v}@0")
         env0[loop.target.id] = Poly.atom(self.item_atom)
         leaves: list[Leaf] = []
-        self._in_loop = True
+        self._in_loop, self._colls, self._coll_fn = True, colls, fn
         try:
             self._block(self.prep(list(loop.body)), env0, (),
                         lambda e2, f2: self._leaf(leaves, Leaf("fall", f2, e2)),
                         lambda kind, val, e2, f2, node: self._leaf(leaves, Leaf(kind, f2, e2, val, node)))
         finally:
-            self._in_loop = False
-        self.loops.append(LoopRecord(loop, s, fn, dict(env), facts, iter_term, assigned, leaves))
+            self._in_loop, self._colls, self._coll_fn = False, {}, None
+        self.loops.append(LoopRecord(loop, s, fn, dict(env), facts, iter_term, assigned, leaves, colls))
         env1 = dict(env)
         for v in assigned + [loop.target.id]:
             env1[v] = Poly.atom(f"{v}@loop")
@@ -629,6 +807,22 @@ class SymExec:
                 # a private helper called for its effect: its body must itself be executable here (bindings,
                 # branches, logging), so it has no effect on the state the rules look at; its paths count
                 return self._run_helper(s.value, env, facts, lambda _v, f2: nxt(env, f2), ctl)
+            c = s.value
+            if isinstance(c, ast.Call) and isinstance(c.func, ast.Attribute) and not c.keywords \
+                    and not any(isinstance(a, ast.Starred) for a in c.args):
+                if isinstance(c.func.value, ast.Name) and c.func.value.id in self._colls and c.func.attr in COLLECT \
+                        and self.fn_stack[-1] is self._coll_fn and len(c.args) == 1 \
+                        and COLLECT[c.func.attr] == self._colls[c.func.value.id]:
+                    # one more contribution collected by this iteration
+                    name = c.func.value.id
+                    old, elem = env[name], self.ev(c.args[0], env)
+                    env2 = dict(env)
+                    env2[name] = self.mk(f"push({old!r}, {elem!r})", ("push", old, elem, s))
+                    return nxt(env2, facts)
+                param = self._rooted(self.ev(c.func.value, env)) if c.func.attr in INPLACE else None
+                if param is not None:
+                    self._mutated(param, s, facts)
+                    return nxt(env, facts)
             raise AnalysisError(f"{self.fn_stack[-1].qual}: unsupported expression statement `{u(s)[:80]}`")
         if isinstance(s, ast.Assign):
             return self._assign(s, list(s.targets), s.value, env, facts, nxt, ctl)
@@ -637,6 +831,11 @@ class SymExec:
                 return nxt(env, facts)
             return self._assign(s, [s.target], s.value, env, facts, nxt, ctl)
         if isinstance(s, ast.AugAssign):
+            param = self._rooted(self.ev(s.target, env)) if isinstance(s.target, (ast.Name, ast.Subscript, ast.Attribute)) else None
+            if param is not None and (not isinstance(s.target, ast.Name)
+                                      or isinstance(s.op, (ast.BitAnd, ast.BitOr, ast.BitXor, ast.Sub))):
+                self._mutated(param, s, facts)  # `p &= …` works in place on a set; `p[k] += …` stores into p
+                return nxt(env, facts)
             if not isinstance(s.target, ast.Name):
                 raise AnalysisError(f"{self.fn_stack[-1].qual}: unsupported augmented assignment `{u(s)[:80]}`")
             val = self.ev(ast.BinOp(left=ast.Name(id=s.target.id, ctx=ast.Load()), op=s.op, right=s.value), env)
@@ -671,6 +870,11 @@ class SymExec:
             return None
         if isinstance(s, ast.For):
             return self._loop(s, env, facts, nxt, ctl)
+        if isinstance(s, ast.Delete) and all(isinstance(t, (ast.Subscript, ast.Attribute)) for t in s.targets):
+            params = [self._rooted(self.ev(t.value, env)) for t in s.targets]  # type: ignore[attr-defined]
+            if all(p is not None for p in params):
+                self._mutated(str(params[0]), s, facts)
+                return nxt(env, facts)
         raise AnalysisError(f"{self.fn_stack[-1].qual}: unsupported statement `{u(s)[:60]}` "
                             f"({type(s).__name__})")
 
